@@ -246,6 +246,7 @@ func c08(r *core.Run) {
 	c08Range(r)
 	c08Configured(r)
 	c08Needle(r)
+	c08Prefilter(r)
 }
 
 func c08Veto(r *core.Run) {
@@ -1620,4 +1621,121 @@ func c08Needle(r *core.Run) {
 		})
 	}
 	r.Floor("C08.NEEDLE", "containment tests between scanned and required strings", n, 1)
+}
+
+// c08Prefilter: every entropy pre-filter of the embedded store has the one shape that agrees with the matcher and the
+// other backend: a candidate is dropped iff |score − figure| is STRICTLY greater than the tolerance, and the
+// tolerance is the signature's own unless that is 0, in which case the scanner's default is used. A pre-filter that
+// drops at equality, or swaps the fallback, makes one mode (or one index) lose alerts the other reports.
+func c08Prefilter(r *core.Run) {
+	p := r.P
+	r.Explain += " (PREFILTER) every entropy pre-filter of the embedded store drops a candidate iff |score − figure| > tolerance, with the signature's own tolerance unless it is 0 (then the scanner's default)."
+	n := 0
+	for _, fn := range p.FuncsIn("pkg/storage/pebbledb") {
+		for _, nf := range []*ssa.Function{fn} {
+			var cmpInstrs []*ssa.BinOp
+			core.InstrsOf(nf, func(in ssa.Instruction) {
+				if bo, isB := in.(*ssa.BinOp); isB {
+					switch bo.Op {
+					case token.LSS, token.LEQ, token.GTR, token.GEQ:
+						cmpInstrs = append(cmpInstrs, bo)
+					}
+				}
+			})
+			for _, ifi := range cmpInstrs {
+				op, x, y, neg, okC := core.Compare(ifi)
+				if !okC {
+					continue
+				}
+				abs, isAbs := callTo(x, "math.Abs")
+				tol := y
+				mirrored := false
+				if !isAbs {
+					abs, isAbs = callTo(y, "math.Abs")
+					tol = x
+					mirrored = true
+				}
+				if !isAbs {
+					continue
+				}
+				sub, isSub := abs.Call.Args[0].(*ssa.BinOp)
+				if !isSub || sub.Op != token.SUB {
+					continue
+				}
+				isFigure := func(v ssa.Value) bool {
+					if _, ok := topoFieldPath(v); ok {
+						return true
+					}
+					// inside a helper: the operand is a parameter that every caller feeds with the topology's figure
+					prm, isP := core.Unwrap(v).(*ssa.Parameter)
+					if !isP {
+						return false
+					}
+					sites := callersOf(p, nf)
+					for i, q := range nf.Params {
+						if q != prm {
+							continue
+						}
+						for _, site := range sites {
+							args := core.CallArgs(site.Common())
+							if i >= len(args) {
+								return false
+							}
+							if _, ok := topoFieldPath(args[i]); !ok {
+								return false
+							}
+						}
+						return len(sites) > 0
+					}
+					return false
+				}
+				if !isFigure(sub.X) && !isFigure(sub.Y) {
+					continue
+				}
+				n++
+				fnm := core.FuncName(nf)
+				if mirrored {
+					op = map[token.Token]token.Token{token.LSS: token.GTR, token.GTR: token.LSS, token.LEQ: token.GEQ, token.GEQ: token.LEQ}[op]
+				}
+				// normalised: |d| op tol
+				okOp := !neg && (op == token.GTR || op == token.LEQ)
+				r.Check(okOp, "C08.PREFILTER", fnm+"#boundary", ifi.Pos(), "a candidate at exactly the tolerance is kept (dropped only when the distance is strictly greater)", "the pre-filter compares the entropy distance with the tolerance by "+op.String()+": a signature whose distance equals its tolerance is dropped here but matched by the matcher, the JSON backend and the sibling scans")
+				// the tolerance: own value, default when own == 0
+				ph, isPhi := tol.(*ssa.Phi)
+				if !isPhi || len(ph.Edges) != 2 {
+					r.Fail("C08.PREFILTER", fnm+"#fallback", ifi.Pos(), "the tolerance compared with is not 'own tolerance, or the default when that is 0' ("+core.Canon(tol)+")")
+					continue
+				}
+				okFb := false
+				for i := 0; i < 2; i++ {
+					own, def := ph.Edges[i], ph.Edges[1-i]
+					predOwn, predDef := ph.Block().Preds[i], ph.Block().Preds[1-i]
+					_ = def
+					// the default's predecessor is entered from the own-edge block through `own == 0`
+					if len(predOwn.Instrs) == 0 {
+						continue
+					}
+					tif, isIf := predOwn.Instrs[len(predOwn.Instrs)-1].(*ssa.If)
+					if !isIf {
+						continue
+					}
+					op2, a2, b2, neg2, ok2 := core.Compare(tif.Cond)
+					if !ok2 || neg2 || a2 != own {
+						continue
+					}
+					if z, isZ := core.ConstFloat(b2); !isZ || z != 0 {
+						continue
+					}
+					switch {
+					case op2 == token.EQL && predOwn.Succs[0] == predDef:
+						okFb = true
+					case op2 == token.NEQ && predOwn.Succs[1] == predDef:
+						okFb = true
+					}
+				}
+				r.Check(okFb, "C08.PREFILTER", fnm+"#fallback", ifi.Pos(), "the scanner's default tolerance replaces the signature's own only when that is 0", "the fallback of the pre-filter tolerance is not 'default when the signature's own tolerance is 0': signatures that rely on the default are filtered with tolerance 0 (or signatures with their own tolerance get the default), so this scan mode drops alerts its sibling reports")
+			}
+		}
+	}
+	r.Floor("C08.PREFILTER", "entropy pre-filters of the embedded store", n, 1)
 }
